@@ -16,6 +16,140 @@ theorem valid_iff_all_rules (d : Desc) : validBlock d = .ok () ↔ Valid d :=
 theorem reject_names_violated_rule (d : Desc) (r : Rule) (h : validBlock d = .error r) :
     ruleOk r d = false := Lemmas.validBlock_error d r h
 
+/-! ### the chain machine with the rule checks instantiated by `validBlock`
+
+`D anc b` is any derivation of the block description from the block `b` and its OWN ancestor list `anc`
+(parent first, genesis last) — nothing else is an argument.  `ContextFree D` says the sanity-stage rules do
+not read the context part.  Histories `bs` are arbitrary lists of delivered blocks: orphans, unrelated
+forks, duplicates and every arrival order are universally quantified. -/
+
+section chain
+open Chain Lemmas
+variable {β : Type} (D : List (Blk β) → Blk β → Desc) (g : Blk β)
+
+/-- Every block on the active chain, in every reachable state, satisfies every rule in the context of its
+    own ancestors (the part of the chain below it). -/
+theorem active_sound (hD : ContextFree D) (bs : List (Blk β)) :
+    AllValid D g (run (oracleOf D) g bs).best :=
+  allValid_of_chainOk D hD g _ (run_inv (oracleOf D) g bs).bestOk
+
+/-- pointwise form: a block at any position of the active chain is valid given exactly the blocks below it -/
+theorem active_sound_at (hD : ContextFree D) (bs : List (Blk β)) (pre : List (Blk β)) (b : Blk β)
+    (anc : List (Blk β)) (h : (run (oracleOf D) g bs).best = pre ++ b :: anc) (hne : anc ≠ []) :
+    validBlock (D anc b) = .ok () := by
+  have hc := chainOk_suffix (oracleOf D) g pre (b :: anc) (by simp)
+    (by rw [← h]; exact (run_inv (oracleOf D) g bs).bestOk)
+  rcases hc with ⟨h1, _⟩ | ⟨h0, h1, h2, _⟩
+  · exact absurd h1 hne
+  · exact (oracle_all_iff D hD anc b).mp ⟨h0, h1, h2⟩
+
+/-- The validity flag a node carries is `validBlock` of (block, own ancestors): a node marked valid satisfies
+    every rule, a node marked failed violates one. -/
+theorem verdict_is_validBlock (hD : ContextFree D) (bs : List (Blk β)) (n : Node β)
+    (hn : n ∈ (run (oracleOf D) g bs).nodes) (hne : n.anc ≠ []) :
+    (n.valid = true → validBlock (D n.anc n.blk) = .ok ()) ∧
+    (n.failed = true → validBlock (D n.anc n.blk) ≠ .ok ()) := by
+  have hi := run_inv (oracleOf D) g bs
+  have hok := hi.nodeOk n hn
+  unfold NodeOk at hok
+  cases ha : n.anc with
+  | nil => exact absurd ha hne
+  | cons p rest =>
+    rw [ha] at hok
+    obtain ⟨h0, h1, _, _⟩ := hok
+    constructor
+    · intro hv
+      rcases hi.validOk n hn hv with e | h2
+      · exact absurd e hne
+      · rw [ha] at h2
+        exact (oracle_all_iff D hD (p :: rest) n.blk).mp ⟨h0, h1, h2⟩
+    · intro hf hval
+      have h2 := (hi.failedOk n hn hf).2
+      rw [ha] at h2
+      have := ((oracle_all_iff D hD (p :: rest) n.blk).mpr hval).2.2
+      rw [this] at h2
+      cases h2
+
+/-- The verdict depends only on the block and its ancestor path: two arbitrary histories that both validated
+    the same block on the same ancestors assigned the same flags, and that flag is `validBlock`. -/
+theorem verdict_depends_only_on_ancestors (hD : ContextFree D) (bs₁ bs₂ : List (Blk β)) (n₁ n₂ : Node β)
+    (h₁ : n₁ ∈ (run (oracleOf D) g bs₁).nodes) (h₂ : n₂ ∈ (run (oracleOf D) g bs₂).nodes)
+    (hb : n₁.blk = n₂.blk) (ha : n₁.anc = n₂.anc) (hne : n₁.anc ≠ [])
+    (c₁ : (n₁.valid || n₁.failed) = true) (c₂ : (n₂.valid || n₂.failed) = true) :
+    n₁.valid = n₂.valid ∧ n₁.failed = n₂.failed ∧
+      (n₁.valid = true ↔ validBlock (D n₁.anc n₁.blk) = .ok ()) := by
+  have v₁ := verdict_is_validBlock D g hD bs₁ n₁ h₁ hne
+  have v₂ := verdict_is_validBlock D g hD bs₂ n₂ h₂ (by rw [← ha]; exact hne)
+  rw [← ha, ← hb] at v₂
+  cases hv1 : n₁.valid <;> cases hf1 : n₁.failed <;> cases hv2 : n₂.valid <;> cases hf2 : n₂.failed <;>
+    simp_all
+
+/-- The reorganisation path applies the same check as the tip-extension path: whichever of the two validated a
+    node, its flags are the value of the connect-stage oracle on the node's own ancestors (and never both). -/
+theorem reorg_path_same_checks (bs : List (Blk β)) (O : Oracle β) (n : Node β)
+    (hn : n ∈ (run O g bs).nodes) (hne : n.anc ≠ []) (c : (n.valid || n.failed) = true) :
+    n.valid = O.connOk n.anc n.blk ∧ n.failed = !O.connOk n.anc n.blk := by
+  have hi := run_inv O g bs
+  cases hv : n.valid <;> cases hf : n.failed
+  · simp [hv, hf] at c
+  · have := (hi.failedOk n hn hf).2
+    simp [this]
+  · rcases hi.validOk n hn hv with e | h
+    · exact absurd e hne
+    · simp [h]
+  · rcases hi.validOk n hn hv with e | h
+    · exact absurd e hne
+    · have := (hi.failedOk n hn hf).2
+      rw [h] at this; cases this
+
+/-- Whatever is indexed passed the sanity and context stages on its own ancestors. -/
+theorem indexed_sound (bs : List (Blk β)) (O : Oracle β) (n : Node β)
+    (hn : n ∈ (run O g bs).nodes) (hne : n.anc ≠ []) :
+    O.sane n.blk = true ∧ O.ctxOk n.anc n.blk = true := by
+  have hok := (run_inv O g bs).nodeOk n hn
+  unfold NodeOk at hok
+  cases ha : n.anc with
+  | nil => exact absurd ha hne
+  | cons p rest =>
+    rw [ha] at hok
+    obtain ⟨h0, h1, _, _⟩ := hok
+    exact ⟨h0, by first | exact h1 | (rw [ha]; exact h1)⟩
+
+/-- Completeness of storage (partial: "accepted" is shown as "indexed on its ancestors and never marked failed
+    unless the connect stage really fails"; that a valid block with more work always *becomes* active also
+    needs chain selection, which is property C02).  A new block whose parent is indexed and not known invalid
+    and which passes the sanity and context stages is indexed by `step`. -/
+theorem stored_complete_partial (bs : List (Blk β)) (O : Oracle β) (b : Blk β) (p : Node β)
+    (hnew : lookup (run O g bs) b.hash = none)
+    (hno : (run O g bs).orphans.any (fun o => o.hash == b.hash) = false)
+    (hp : lookup (run O g bs) b.parent = some p) (hpf : p.failed = false) (hpi : p.invalidAnc = false)
+    (hs : O.sane b = true) (hc : O.ctxOk (p.blk :: p.anc) b = true) :
+    ∃ n ∈ (run O g (bs ++ [b])).nodes, n.blk = b ∧ n.anc = p.blk :: p.anc ∧
+      (n.failed = true → O.connOk n.anc n.blk = false) ∧
+      (O.connOk n.anc n.blk = true → n.failed = false) := by
+  have hrun : run O g (bs ++ [b]) = (step O (run O g bs) b).1 := by
+    unfold run; rw [List.foldl_append]; rfl
+  have hi' : Inv O g (run O g (bs ++ [b])) := run_inv O g _
+  have key : ∃ n ∈ (step O (run O g bs) b).1.nodes, n.blk = b ∧ n.anc = p.blk :: p.anc := by
+    have acc := accept_indexed O hnew hp hpf hpi hc
+    unfold step
+    rw [hnew, hno, hp]
+    simp only [Option.isSome_none, Bool.or_self, Bool.false_eq_true, if_false, hs, Bool.not_true,
+      Option.isNone_some]
+    split
+    · exact acc.1
+    · obtain ⟨n, hn, e1, e2⟩ := acc.1
+      obtain ⟨n', hn', e3, e4⟩ := processOrphans_grows O _ _ _ n hn
+      exact ⟨n', hn', by rw [e3, e1], by rw [e4, e2]⟩
+  obtain ⟨n, hn, e1, e2⟩ := key
+  rw [← hrun] at hn
+  refine ⟨n, hn, e1, e2, fun hf => (hi'.failedOk n hn hf).2, fun hconn => ?_⟩
+  cases hf : n.failed with
+  | false => rfl
+  | true => have := (hi'.failedOk n hn hf).2; rw [hconn] at this; cases this
+
+end chain
+
 /-! ### pinned constants (regenerated from the tree on every run) -/
 
 theorem pin_maxBlockBaseSize : Generated.C01.maxBlockBaseSize = MAX_BLOCK_BASE_SIZE := by decide
